@@ -317,6 +317,9 @@ func perturb(r *hlib.Rand, k *kase, tl []pkt, pf profile) ([]pkt, []string) {
 		if pf.snap {
 			kinds = append(kinds, "snap", "snap")
 		}
+		if pf.allowFrag {
+			kinds = append(kinds, "dgram")
+		}
 		if len(kinds) == 0 {
 			break
 		}
@@ -364,6 +367,49 @@ func perturb(r *hlib.Rand, k *kase, tl []pkt, pf profile) ([]pkt, []string) {
 			i := cand[r.Intn(len(cand))]
 			tl[i-1], tl[i] = tl[i], tl[i-1]
 			notes = append(notes, "finfirst")
+		case "dgram":
+			// a fragmented IPv4 datagram that is not a TCP segment of the conversation: other protocols, with and
+			// without a decoder in gopacket, and payloads too short for their transport header
+			c := k.conns[tl[0].conn]
+			if c.v6() {
+				continue
+			}
+			// not 47 (GRE): gopacket's GRE decoder panics on a garbage header and fq's packet() calls it without
+			// recover for a REASSEMBLED datagram — fq crashes (reported; replays/C19/finding-reassembled-gre-panic.json)
+			protos := []int{17, 1, 50, 132, 115, 103, 88, 253, 6, 17, 1, 0xff, 2}
+			proto := protos[r.Intn(len(protos))]
+			n := r.Range(9, 120)
+			if r.Intn(3) == 0 || proto == 6 {
+				// shorter than a TCP header, may be shorter than other headers too (a protocol 6 datagram of 20 bytes
+				// or more WOULD be a TCP segment, of some other connection)
+				n = r.Range(9, 19)
+			}
+			body := r.Bytes(n)
+			fragID++
+			id := fragID & 0x7fff
+			dir := r.Intn(2)
+			var fr []pkt
+			off := 0
+			for off < n {
+				sz := n - off
+				if maxUnits := (sz - 1) / 8; maxUnits >= 1 && len(fr) < 3 {
+					sz = 8 * r.Range(1, maxUnits)
+				}
+				fr = append(fr, pkt{frag: true, conn: tl[0].conn, dir: dir, ipid: id, foff: off, body: body[off : off+sz], mf: off+sz < n, proto: proto, cut: cutNone})
+				off += sz
+			}
+			if len(fr) < 2 {
+				continue
+			}
+			if pf.fragMess && r.Intn(2) == 0 {
+				for i := len(fr) - 1; i > 0; i-- {
+					j := r.Intn(i + 1)
+					fr[i], fr[j] = fr[j], fr[i]
+				}
+			}
+			at := r.Range(0, len(tl))
+			tl = append(tl[:at:at], append(fr, tl[at:]...)...)
+			notes = append(notes, fmt.Sprintf("dgram%d", proto))
 		case "snap":
 			// the record is cut by the snap length: inside the payload, the TCP header, the IP header or the link header
 			i := r.Intn(len(tl))
@@ -514,6 +560,70 @@ func genKase(r *hlib.Rand, pf profile) *kase {
 		k.notes = append(k.notes, fmt.Sprintf("sections%d", nsec))
 	}
 	k.notes = dedup(k.notes)
+	return k
+}
+
+// genLongQueue: one direction has a hole (a segment never captured, or captured late) followed by thousands of
+// tiny segments that have to wait behind it — more than gopacket's page limits of 4096 / 8192 if one were set.
+func genLongQueue(r *hlib.Rand) *kase {
+	k := &kase{}
+	k.fmtName = fmtNames[r.Intn(len(fmtNames))]
+	k.links = []string{[]string{"eth", "raw", "sll", "sll2", "null"}[r.Intn(5)]}
+	nseg := r.Range(4097, 4400)
+	maxSz := 8
+	if r.Intn(4) == 0 {
+		nseg = r.Range(8193, 8300)
+		maxSz = 7
+	}
+	sizes := make([]int, nseg)
+	total := 0
+	for i := range sizes {
+		sizes[i] = r.Range(1, maxSz)
+		total += sizes[i]
+	}
+	c := genConn(r, 0, profile{}, r.Intn(5) == 0)
+	c.data[0] = generatedData(r.U64()%1000000, total)
+	c.data[1] = literalData(r.Bytes(r.Range(0, 40)))
+	k.conns = []conn{c}
+	hasSyn := r.Intn(10) < 7
+	var tl []pkt
+	if hasSyn {
+		tl = append(tl, pkt{conn: 0, dir: 0, so: 0, flags: fSYN, cut: cutNone}, pkt{conn: 0, dir: 1, so: 0, flags: fSYN | fACK, cut: cutNone},
+			pkt{conn: 0, dir: 0, so: 1, flags: fACK, cut: cutNone})
+	} else {
+		k.notes = append(k.notes, "nosyn")
+	}
+	hole := 0
+	if r.Intn(2) == 0 {
+		hole = r.Range(1, 30)
+	}
+	late := r.Intn(2) == 0
+	var holePkt pkt
+	pos := 1
+	for i, sz := range sizes {
+		p := pkt{conn: 0, dir: 0, so: pos, n: sz, flags: fACK, cut: cutNone}
+		pos += sz
+		if i == hole {
+			holePkt = p
+			continue
+		}
+		tl = append(tl, p)
+		if i == nseg/2 && len(c.data[1].bytes) > 0 {
+			tl = append(tl, pkt{conn: 0, dir: 1, so: 1, n: len(c.data[1].bytes), flags: fACK, cut: cutNone})
+		}
+	}
+	if late {
+		// the missing segment arrives at the very end (a retransmission), a few more segments may follow: none here
+		tl = append(tl, holePkt)
+		k.notes = append(k.notes, "late")
+	} else {
+		k.notes = append(k.notes, "omit")
+	}
+	if r.Intn(2) == 0 {
+		tl = append(tl, pkt{conn: 0, dir: 0, so: pos, flags: fFIN | fACK, cut: cutNone})
+	}
+	k.pkts = tl
+	k.notes = append(k.notes, fmt.Sprintf("longq%d", nseg))
 	return k
 }
 
